@@ -5,6 +5,7 @@ import json
 import os
 import posixpath
 import random
+import re
 import shutil
 import subprocess
 import sys
@@ -883,10 +884,13 @@ def d_ns(raw):
     return sorted(out)
 
 
-def classify_alias_failure(decls, argv):
-    """finding classes of a command line whose two spellings parse differently"""
-    if any('--' in names for names, _ in decls) and '--' in argv:
-        return ('x-alias-empty-name',)      # an argument named '' registers the bare double dash
+def classify_alias_failure(decls, argv, plain=None, x=None):
+    """finding classes of a command line whose two spellings parse differently (plain / x: what the two spellings parse to).
+    x-alias-empty-name: an argument named '' registers the bare double dash AND the failure is the one the finding describes -
+    the plain spelling is rejected (argparse takes -- as its separator) while the --x- spelling is accepted; two accepted
+    spellings with different values, or a rejected --x- spelling, are different violations"""
+    if any('--' in names for names, _ in decls) and '--' in argv and isinstance(plain, str) and not isinstance(x, str):
+        return ('x-alias-empty-name',)
     return ()
 
 
@@ -938,7 +942,7 @@ def stage_userargs(rep, rng, n):
                     found += 1
                     rep.fail('declarations %r: %r parses to %r but the --x- spelling %r parses to %r' % (
                         decls, argv, r, argv2, r2), {'decls': decls, 'argv': argv, 'argv_x': argv2, 'plain': r, 'x': r2},
-                        classes=classify_alias_failure(decls, argv))
+                        classes=classify_alias_failure(decls, argv, r, r2))
     keepcalls = calls
 
     def dec(name, raw):
@@ -1152,7 +1156,8 @@ def stage_output_builtins(rep, depth=2):
                 bad += 1
                 rep.fail('%s inside submodule %r creates %s, not a path under %s...' % (expr, '/'.join(chain), got, want),
                          {'builtin': name, 'expr': expr, 'submodule': '/'.join(chain), 'output': got, 'expected_prefix': want},
-                         classes=('output-not-relative:' + name.split('-')[0],))
+                         # the finding (build_step only): the output is placed directly in the build directory under its name
+                         classes=('output-not-relative:' + name.split('-')[0],) if re.match(r'^`\$\(builddir\)/[^/]+`$', got) else ())
     finally:
         shutil.rmtree(d, ignore_errors=True)
     rep.stage('oracle:output-builtins', builtins=len(cases), failures=bad)
@@ -1231,6 +1236,7 @@ def replay(rep, path):
         p, err = real_parser([(n, a) for n, a in r['decls']], 'parse')
         if p is not None and real_parse(p, r['argv']) != real_parse(p, r['argv_x']):
             rep.fail('the plain and the --x- spelling still parse differently', r,
-                     classes=classify_alias_failure([(n, a) for n, a in r['decls']], r['argv']))
+                     classes=classify_alias_failure([(n, a) for n, a in r['decls']], r['argv'],
+                                                    real_parse(p, r['argv']), real_parse(p, r['argv_x'])))
         return
     run(rep)
